@@ -321,6 +321,13 @@ Qed.
 Lemma eq2_honest (g : G1) alpha c r : (alpha + c * r) *: g = alpha *: g + c *: (r *: g).
 Proof. by rewrite scalerDl scalerA. Qed.
 
+Lemma eq3_honest (g0 : G1) c rc gamma (B M : G1) :
+  c *: (rc *: g0 + M) + (gamma *: g0 + B) = (gamma + c * rc) *: g0 + (B + c *: M).
+Proof.
+rewrite scalerDr scalerA scalerDl addrACA [(c * rc) *: g0 + _]addrC; congr (_ + _).
+by rewrite addrC.
+Qed.
+
 Theorem request_accepted (pp : pparams) m rc z r alpha beta gamma :
   size m = (pn pp).-1 -> (0 < pn pp)%N ->
   (verify_request true pp (blind pp m rc z r alpha beta gamma).1).1 = true.
@@ -339,8 +346,210 @@ apply/and3P; split => /=.
   by rewrite /eq2_at !nth_mkseq // eq2_honest.
 rewrite /eq3 lin_mkseq_affine; apply/eqP.
 have -> : lin n msg (pgs pp) = lin (size m) m (pgs pp) + Hm (commit pp rc m) *: last 0 (pgs pp).
-  by rewrite -sn /msg lin_rcons -nth_last -/(pn pp) -sn.
-rewrite /cm /full_cm /commit scalerDl scalerA !scalerDr -!addrA; congr (_ + _).
-rewrite addrCA; congr (_ + _).
-by rewrite addrC -!addrA; congr (_ + _); rewrite addrC.
+  by rewrite /n -sn /msg lin_rcons -nth_last sm /pn.
+rewrite -/c; clearbody c; rewrite /cm /full_cm /commit -addrA; exact: eq3_honest.
 Qed.
+
+(* ---- signing and unblinding ---- *)
+Lemma lin_mkseq_r (V : lmodType F) n (c : seq F) (f : nat -> V) :
+  lin n c (mkseq f n) = \sum_(0 <= i < n) c`_i *: f i.
+Proof. by apply: eq_big_nat => i /andP [_ ilt]; rewrite nth_mkseq. Qed.
+
+(* the exponent of an unblinded signature: x + sum_j y_j m_j *)
+Definition sig_exp (n : nat) (sk : skey F) (msg : seq F) : F := skx sk + \sum_(0 <= j < n) (sky sk)`_j * msg`_j.
+
+Lemma unblind_point_honest (pp : pparams) m rc z r alpha beta gamma sk :
+  let bl := blind pp m rc z r alpha beta gamma in
+  unblind_point (apply_sk pp bl.1 sk) (sz bl.2) = sig_exp (pn pp) sk (smsg bl.2) *: sh bl.2.
+Proof.
+rewrite /= /unblind_point /apply_sk /= /req_h /req_cm /= !lin_mkseq_r /sig_exp.
+set h := HG _; set msg := rcons m _; set n := pn pp.
+rewrite scalerDl -addrA; congr (_ + _).
+rewrite scaler_suml scaler_sumr -big_split /=; apply: eq_big_nat => i _.
+rewrite scalerDr !scalerA addrAC -addrA -scalerDl.
+by rewrite -mulrA mulNr [z * _]mulrC addNr scale0r addr0.
+Qed.
+
+Lemma pkY_pk_of (pp : pparams) sk : pkY (pk_of pp sk) = [seq y *: pg2 pp | y <- sky sk].
+Proof. by []. Qed.
+
+Lemma key_exp (pp : pparams) sk n msg : (n <= size (sky sk))%N ->
+  pkX (pk_of pp sk) + lin n msg (pkY (pk_of pp sk)) = sig_exp n sk msg *: pg2 pp.
+Proof.
+move=> nle; rewrite /= lin_pk // /sig_exp scalerDl; congr (_ + _ *: _).
+by apply: eq_bigr => i _; rewrite mulrC.
+Qed.
+
+Theorem partial_unblinds (pp : pparams) m rc z r alpha beta gamma sk :
+  size m = (pn pp).-1 -> (0 < pn pp)%N -> size (sky sk) = pn pp ->
+  let bl := blind pp m rc z r alpha beta gamma in
+  unblind pp (pk_of pp sk) (apply_sk pp bl.1 sk) (sh bl.2) (smsg bl.2) (sz bl.2)
+  = Some (sig_exp (pn pp) sk (smsg bl.2) *: sh bl.2).
+Proof.
+move=> sm npos ssk bl.
+have smsg : size (smsg bl.2) = pn pp by rewrite /= size_rcons sm prednK.
+rewrite /unblind smsg size_map ssk ltnn unblind_point_honest -/bl.
+by rewrite key_exp ?ssk // eNr eZl eZr addNr eqxx.
+Qed.
+
+(* ---- proof of knowledge under one key ---- *)
+Theorem pok_verifies_key (pp : pparams) sk (h : G1) msg eps delta mu gam :
+  size (sky sk) = pn pp -> size msg = pn pp -> h != 0 -> eps != 0 ->
+  verify_pok pp (pk_of pp sk)
+    (pok_of_sig pp (pk_of pp sk) h (sig_exp (pn pp) sk msg *: h) msg eps delta mu gam) = true.
+Proof.
+move=> ssk smsg hn0 en0.
+rewrite /verify_pok /pok_challenge /pok_eqs /= !size_mkseq !size_map ssk -smsg leqnn /=.
+set Y := [seq _ | y <- sky sk]; set c := RO2 _.
+have kE : skx sk *: pg2 pp + lin (size msg) msg Y = sig_exp (size msg) sk msg *: pg2 pp.
+  by rewrite -(key_exp pp (n:=size msg) msg) ?ssk ?smsg.
+apply/and4P; split.
+- rewrite /pok_commit_eq /= size_mkseq lin_mkseq_affine -/c.
+  have -> : skx sk *: pg2 pp + lin (size msg) msg Y + delta *: pg2 pp - skx sk *: pg2 pp
+            = lin (size msg) msg Y + delta *: pg2 pp.
+    by rewrite addrAC [skx sk *: _ + _]addrC addrK.
+  rewrite scalerDl scalerDr scalerA -!addrA; apply/eqP; congr (_ + _).
+  by rewrite addrC -addrA.
+- by rewrite /pok_nu_eq /= -/c scalerDl addrC -!scalerA.
+- by rewrite scaler_eq0 negb_or en0.
+rewrite /pok_pairing_eq kE.
+rewrite -scalerDl eNr !eZl eZr eDl !eZl !scalerA -scalerDl -scalerBl.
+set k := sig_exp _ _ _.
+have -> : eps * (k + delta) - (eps * k + delta * eps) = 0.
+  by rewrite mulrDr [delta * eps]mulrC subrr.
+by rewrite scale0r.
+Qed.
+
+(* ---- threshold: Lagrange in the exponent ---- *)
+Variables (N t : nat).
+(* party identifiers 0..N are distinct scalars (N < char F, e.g. N < the group order) *)
+Hypothesis natF_inj : forall i j : nat, (i <= N)%N -> (j <= N)%N -> i%:R = j%:R :> F -> i = j.
+
+(* a list of at least t distinct parties of 1..N *)
+Definition signers_ok (S : seq nat) : bool :=
+  [&& uniq S, all (fun i => (0 < i <= N)%N) S & (t <= size S)%N].
+
+Lemma uniq_pts S : signers_ok S -> uniq (pts F S).
+Proof.
+case/and3P => uS /allP inS _; rewrite map_inj_in_uniq // => i j /inS /andP [_ iN] /inS /andP [_ jN].
+exact: natF_inj.
+Qed.
+
+Lemma agg_points_poly (V : lmodType F) T (Q : {poly F}) (v : V) :
+  signers_ok T -> (size Q <= t)%N -> agg_points T (fun k => Q.[k%:R] *: v) = Q.[0] *: v.
+Proof.
+move=> okT sQ; have [_ _ tT] := and3P okT.
+rewrite -(reconstruct_at0 (uniq_pts okT)); last by rewrite size_map (leq_trans sQ).
+rewrite /agg_points /pts big_map scaler_suml; apply: eq_bigr => k _.
+by rewrite scalerA mulrC.
+Qed.
+
+Lemma combine_agg S (f : nat -> G1) : combine_witnesses S [seq f k | k <- S] = agg_points S f.
+Proof. by rewrite /combine_witnesses -{1}(map_id S) zip_map big_map. Qed.
+
+(* secret key of party i when the combined polynomials are Px, Py_j *)
+Definition sk_at (Px : {poly F}) (Py : nat -> {poly F}) (n i : nat) : skey F :=
+  SK Px.[i%:R] (mkseq (fun j => (Py j).[i%:R]) n).
+
+Definition exp_poly (Px : {poly F}) (Py : nat -> {poly F}) (n : nat) (msg : seq F) : {poly F} :=
+  Px + \sum_(0 <= j < n) msg`_j *: Py j.
+
+Lemma sig_exp_poly Px Py n i msg : sig_exp n (sk_at Px Py n i) msg = (exp_poly Px Py n msg).[i%:R].
+Proof.
+rewrite /sig_exp /exp_poly hornerD horner_sum /=; congr (_ + _).
+by apply: eq_big_nat => j /andP [_ jlt]; rewrite nth_mkseq // hornerZ mulrC.
+Qed.
+
+Lemma size_exp_poly (Px : {poly F}) (Py : nat -> {poly F}) n msg : (size Px <= t)%N -> (forall j, size (Py j) <= t)%N ->
+  (size (exp_poly Px Py n msg) <= t)%N.
+Proof.
+move=> sx sy; apply: leq_trans (size_add _ _) _; rewrite geq_max sx /=.
+elim/big_rec: _ => [|j acc _ IH]; first by rewrite size_poly0.
+apply: leq_trans (size_add _ _) _; rewrite geq_max IH andbT.
+exact: leq_trans (size_scale_leq _ _) (sy j).
+Qed.
+
+Lemma sk_at0 Px Py n : sk_at Px Py n 0 = SK Px.[0] (mkseq (fun j => (Py j).[0]) n).
+Proof. by []. Qed.
+
+(* the Lagrange-combined witnesses are the unblinded signature under the key at 0 *)
+Lemma combine_honest (pp : pparams) (Px : {poly F}) (Py : nat -> {poly F}) S msg (h : G1) :
+  signers_ok S -> (size Px <= t)%N -> (forall j, size (Py j) <= t)%N ->
+  combine_witnesses S [seq sig_exp (pn pp) (sk_at Px Py (pn pp) k) msg *: h | k <- S]
+  = sig_exp (pn pp) (sk_at Px Py (pn pp) 0) msg *: h.
+Proof.
+move=> okS sx sy; rewrite combine_agg sig_exp_poly -(agg_points_poly _ okS (size_exp_poly _ _ sx sy)).
+by apply: eq_bigr => k _; rewrite sig_exp_poly.
+Qed.
+
+Theorem pok_verifies (pp : pparams) (Px : {poly F}) (Py : nat -> {poly F}) m rc z r alpha beta gamma S eps delta mu gam :
+  size m = (pn pp).-1 -> (0 < pn pp)%N ->
+  signers_ok S -> (size Px <= t)%N -> (forall j, size (Py j) <= t)%N ->
+  let n := pn pp in
+  let bl := blind pp m rc z r alpha beta gamma in
+  let ws := [seq unblind_point (apply_sk pp bl.1 (sk_at Px Py n k)) (sz bl.2) | k <- S] in
+  let tpk := pk_of pp (sk_at Px Py n 0) in
+  sh bl.2 != 0 -> eps != 0 ->
+  verify_pok pp tpk (prove_knowledge pp tpk bl.2 S ws eps delta mu gam) = true.
+Proof.
+move=> sm npos okS sx sy n bl ws tpk hn0 en0.
+have -> : ws = [seq sig_exp n (sk_at Px Py n k) (smsg bl.2) *: sh bl.2 | k <- S].
+  by apply: eq_map => k; rewrite /bl unblind_point_honest.
+rewrite /prove_knowledge combine_honest //.
+by apply: pok_verifies_key => //=; rewrite ?size_mkseq // size_rcons sm prednK.
+Qed.
+
+(* ---- DKG arithmetic ---- *)
+Lemma evalpE (cs : seq F) x : evalp cs x = (Poly cs).[x].
+Proof. by elim: cs => [|c cs IH] /=; rewrite ?horner0 // horner_cons IH. Qed.
+
+Definition poly_x (deals : seq (dealing F)) : {poly F} := \sum_(d <- deals) Poly (dlx d).
+Definition poly_y (deals : seq (dealing F)) (j : nat) : {poly F} := \sum_(d <- deals) Poly (nth [::] (dly d) j).
+
+(* every dealt polynomial has at most t coefficients (degree <= t-1) *)
+Definition deals_ok (deals : seq (dealing F)) : bool :=
+  all (fun d => (size (dlx d) <= t)%N && all (fun cs => (size cs <= t)%N) (dly d)) deals.
+
+Lemma size_poly_x deals : deals_ok deals -> (size (poly_x deals) <= t)%N.
+Proof.
+elim: deals => [|d ds IH] /=; first by rewrite /poly_x big_nil size_poly0.
+case/andP => /andP [sx _] /IH ok; rewrite /poly_x big_cons.
+apply: leq_trans (size_add _ _) _; rewrite geq_max ok andbT.
+exact: leq_trans (size_Poly _) sx.
+Qed.
+
+Lemma size_poly_y deals j : deals_ok deals -> (size (poly_y deals j) <= t)%N.
+Proof.
+elim: deals => [|d ds IH] /=; first by rewrite /poly_y big_nil size_poly0.
+case/andP => /andP [_ /allP oky] /IH ok; rewrite /poly_y big_cons.
+apply: leq_trans (size_add _ _) _; rewrite geq_max ok andbT.
+apply: leq_trans (size_Poly _) _.
+case: (ltnP j (size (dly d))) => jlt; first by apply: oky; rewrite mem_nth.
+by rewrite nth_default.
+Qed.
+
+Lemma dkg_sk_poly n deals i : dkg_sk n deals i = sk_at (poly_x deals) (poly_y deals) n i.
+Proof.
+rewrite /dkg_sk /sk_at /poly_x horner_sum; congr SK; first by apply: eq_bigr => d _; rewrite evalpE.
+rewrite /mkseq; apply: eq_map => j; rewrite /poly_y horner_sum.
+by apply: eq_bigr => d _; rewrite evalpE.
+Qed.
+
+(* all parties compute the same threshold key, whichever t-subset (indeed any list of >= t parties) they use *)
+Theorem dkg_public_equal (pp : pparams) n deals T :
+  deals_ok deals -> signers_ok T ->
+  agg_pk n (dkg_pks pp n N deals) T = pk_of pp (sk_at (poly_x deals) (poly_y deals) n 0).
+Proof.
+move=> okd okT; have [_ /allP inT _] := and3P okT.
+have nthpk k : k \in T -> nth (PK 0 [::]) (dkg_pks pp n N deals) k.-1 = pk_of pp (sk_at (poly_x deals) (poly_y deals) n k).
+  move=> /inT /andP [k0 kN]; rewrite /dkg_pks (nth_map 0%N) ?size_iota ?prednK //.
+  by rewrite nth_iota ?prednK // add1n prednK // dkg_sk_poly.
+rewrite /agg_pk /pk_of /=; congr PK.
+  rewrite -(agg_points_poly _ okT (size_poly_x okd)); apply: eq_big_seq => k kin.
+  by rewrite nthpk.
+rewrite /mkseq -map_comp; apply/eq_in_map => j; rewrite mem_iota add0n => /andP [_ jlt] /=.
+rewrite -(agg_points_poly _ okT (size_poly_y j okd)); apply: eq_big_seq => k kin.
+by rewrite nthpk //= (nth_map 0) ?size_mkseq // nth_mkseq.
+Qed.
+
+End Facts.
